@@ -60,7 +60,11 @@ func (g *ciGen) method(recv, name string) (*ast.FuncDecl, error) {
 				return fd, nil
 			}
 			if recv != "" && fd.Recv != nil && len(fd.Recv.List) == 1 {
-				if id, ok := fd.Recv.List[0].Type.(*ast.Ident); ok && id.Name == recv {
+				rt := fd.Recv.List[0].Type
+				if st, ok := rt.(*ast.StarExpr); ok {
+					rt = st.X
+				}
+				if id, ok := rt.(*ast.Ident); ok && id.Name == recv {
 					return fd, nil
 				}
 			}
@@ -1342,7 +1346,11 @@ func (g *ciGen) genPromote() error {
 				return g.errf(cc2, "toSameConstImpl: inner case")
 			}
 			if g.src(cc2.List[0]) == "complexConst" {
-				continue // complex constants are outside the model
+				// a real constant becomes the complex constant with that real part and imaginary part int64Const(0)
+				if len(cc2.Body) != 1 || g.src(cc2.Body[0]) != "return newComplexConst(n1, int64Const(0)), n2" {
+					return g.errf(cc2, "toSameConstImpl: promotion to complexConst")
+				}
+				continue
 			}
 			i2, ok := ciImplOf[g.src(cc2.List[0])]
 			if !ok {
@@ -1426,9 +1434,218 @@ func (g *ciGen) genPromote() error {
 	return nil
 }
 
+// ---------------------------------------------------------------------------------------------
+// typechecker.binaryOp, both operands constant: the statements that select the kind of the operation
+// (and with it integer vs. floating-point division) and the type of the result.
+
+// glueExpr translates a condition / kind expression of the constant-folding glue.
+func (g *ciGen) glueExpr(e ast.Expr, vars map[string]string) (string, string, error) {
+	switch g.src(e) {
+	case "t1.Type.Kind()", "t1.Type":
+		return "k1", "kind", nil
+	case "t2.Type.Kind()", "t2.Type":
+		return "k2", "kind", nil
+	case "t1.Untyped()":
+		return "untyped1", "bool", nil
+	case "isShift":
+		return "isShift", "bool", nil
+	case "op == ast.OperatorDivision":
+		return "isQuo", "bool", nil
+	case "evalToBoolOperators[op]":
+		return "isBoolOp", "bool", nil
+	case "boolType":
+		return fmt.Sprint(uint(reflect.Bool)), "kind", nil
+	case "intType":
+		return fmt.Sprint(uint(reflect.Int)), "kind", nil
+	}
+	switch e := e.(type) {
+	case *ast.ParenExpr:
+		s, t, err := g.glueExpr(e.X, vars)
+		return "(" + s + ")", t, err
+	case *ast.Ident:
+		if t, ok := vars[e.Name]; ok {
+			return e.Name, t, nil
+		}
+	case *ast.UnaryExpr:
+		if e.Op == token.NOT {
+			s, t, err := g.glueExpr(e.X, vars)
+			if err == nil && t == "bool" {
+				return "(!" + s + ")", "bool", nil
+			}
+		}
+	case *ast.CallExpr:
+		if g.src(e.Fun) == "isInteger" && len(e.Args) == 1 {
+			s, t, err := g.glueExpr(e.Args[0], vars)
+			if err == nil && t == "kind" {
+				return "(isIntegerKind " + s + ")", "bool", nil
+			}
+		}
+	case *ast.BinaryExpr:
+		a, ta, err := g.glueExpr(e.X, vars)
+		if err != nil {
+			return "", "", err
+		}
+		b, tb, err := g.glueExpr(e.Y, vars)
+		if err != nil {
+			return "", "", err
+		}
+		switch {
+		case (e.Op == token.LAND || e.Op == token.LOR) && ta == "bool" && tb == "bool":
+			return "(" + a + " " + e.Op.String() + " " + b + ")", "bool", nil
+		case e.Op == token.LSS && ta == "kind" && tb == "kind":
+			return "(decide (" + a + " < " + b + "))", "bool", nil
+		}
+	}
+	return "", "", g.errf(e, "expression of the constant-folding glue")
+}
+
+func (g *ciGen) genFoldGlue() error {
+	// isInteger
+	fd, err := g.method("", "isInteger")
+	if err != nil {
+		return err
+	}
+	if len(fd.Body.List) != 1 {
+		return g.errf(fd, "isInteger: single return expected")
+	}
+	ret, ok := fd.Body.List[0].(*ast.ReturnStmt)
+	if !ok || len(ret.Results) != 1 {
+		return g.errf(fd, "isInteger: single return expected")
+	}
+	t, err := g.boolOverKind(&ciEnv{vars: map[string]string{"k": "kind"}, ntemps: new(int)}, ret.Results[0])
+	if err != nil {
+		return err
+	}
+	w := &g.out
+	fmt.Fprintf(w, "\n/-- `isInteger` (%s) -/\ndef isIntegerKind (k : Nat) : Bool := %s\n", g.fset.Position(fd.Pos()), t)
+	fmt.Fprintf(w, "def kInt32Code : Nat := %d\ndef kFloat64 : Nat := %d\ndef kComplex128 : Nat := %d\n", uint(reflect.Int32), uint(reflect.Float64), uint(reflect.Complex128))
+
+	fd, err = g.method("typechecker", "binaryOp")
+	if err != nil {
+		return err
+	}
+	var fold *ast.IfStmt
+	for _, st := range fd.Body.List {
+		if is, ok := st.(*ast.IfStmt); ok && g.src(is.Cond) == "t1.IsConstant() && t2.IsConstant()" {
+			fold = is
+		}
+	}
+	if fold == nil {
+		return g.errf(fd, "binaryOp: if t1.IsConstant() && t2.IsConstant()")
+	}
+	var kindBlock *ast.IfStmt
+	typAt := -1
+	for i, st := range fold.Body.List {
+		if is, ok := st.(*ast.IfStmt); ok && g.src(is.Cond) == "!isShift && !isStringContains" && is.Else == nil {
+			kindBlock = is
+		}
+		if g.src(st) == "typ := t1.Type" {
+			typAt = i
+		}
+	}
+	if kindBlock == nil || typAt < 0 || typAt+1 >= len(fold.Body.List) {
+		return g.errf(fold, "binaryOp: kind selection block / typ := t1.Type")
+	}
+	// the kind of the operation
+	vars := map[string]string{}
+	var lets []string
+	asFloat := ""
+	for _, st := range kindBlock.Body.List {
+		switch st := st.(type) {
+		case *ast.AssignStmt:
+			if st.Tok != token.DEFINE || len(st.Lhs) != 1 || g.src(st.Lhs[0]) != "kind" {
+				return g.errf(st, "binaryOp: kind selection statement")
+			}
+			e, t, err := g.glueExpr(st.Rhs[0], vars)
+			if err != nil || t != "kind" {
+				return g.errf(st, "binaryOp: kind := …")
+			}
+			vars["kind"] = "kind"
+			lets = append(lets, "let kind := "+e+";")
+		case *ast.IfStmt:
+			if st.Init != nil || st.Else != nil || len(st.Body.List) != 1 {
+				return g.errf(st, "binaryOp: kind selection statement")
+			}
+			body := st.Body.List[0]
+			switch {
+			case g.src(st.Cond) == "!t1.Untyped() && !operatorsOfKind[kind][op]" && strings.HasPrefix(g.src(body), "return nil, fmt.Errorf(\"operator %s not defined on %s\""):
+				// typed operands: the operator must be defined on the type (typed constants of the model are integers)
+			case g.src(body) == "c1 = asFloatingPoint(c1)":
+				if asFloat != "" {
+					return g.errf(st, "binaryOp: asFloatingPoint twice")
+				}
+				c, t, err := g.glueExpr(st.Cond, vars)
+				if err != nil || t != "bool" {
+					return g.errf(st.Cond, "binaryOp: condition of asFloatingPoint")
+				}
+				asFloat = c
+			default:
+				as, ok := body.(*ast.AssignStmt)
+				if !ok || as.Tok != token.ASSIGN || len(as.Lhs) != 1 || g.src(as.Lhs[0]) != "kind" || vars["kind"] == "" {
+					return g.errf(st, "binaryOp: kind selection statement")
+				}
+				c, tc, err := g.glueExpr(st.Cond, vars)
+				if err != nil || tc != "bool" {
+					return g.errf(st.Cond, "binaryOp: condition")
+				}
+				e, te, err := g.glueExpr(as.Rhs[0], vars)
+				if err != nil || te != "kind" {
+					return g.errf(as, "binaryOp: kind = …")
+				}
+				lets = append(lets, "let kind := if "+c+" then "+e+" else kind;")
+			}
+		default:
+			return g.errf(st, "binaryOp: kind selection statement")
+		}
+	}
+	if len(lets) == 0 || asFloat == "" {
+		return g.errf(kindBlock, "binaryOp: kind := … / asFloatingPoint")
+	}
+	fmt.Fprintf(w, "\n/-- `typechecker.binaryOp`, two constant operands: the kind of the operation from the kinds of both\noperands (`untyped1` = the left operand is untyped) (%s) -/\n", g.fset.Position(kindBlock.Pos()))
+	fmt.Fprintf(w, "def foldOpKind (untyped1 : Bool) (k1 k2 : Nat) : Nat :=\n  %s kind\n", strings.Join(lets, " "))
+	fmt.Fprintf(w, "/-- … and whether the left operand goes through `asFloatingPoint` first (`isQuo` = the operator is `/`) -/\n")
+	fmt.Fprintf(w, "def foldAsFloat (isQuo : Bool) (kind : Nat) : Bool := %s\n", asFloat)
+	// the type of the result: typ := t1.Type; if … { typ = … } else if … { typ = … } …
+	chain, ok := fold.Body.List[typAt+1].(*ast.IfStmt)
+	if !ok {
+		return g.errf(fold.Body.List[typAt+1], "binaryOp: if chain after typ := t1.Type")
+	}
+	res := "k1"
+	var arms []string
+	for is := chain; is != nil; {
+		if is.Init != nil || len(is.Body.List) != 1 {
+			return g.errf(is, "binaryOp: result type chain")
+		}
+		as, ok := is.Body.List[0].(*ast.AssignStmt)
+		if !ok || as.Tok != token.ASSIGN || g.src(as.Lhs[0]) != "typ" {
+			return g.errf(is, "binaryOp: result type chain")
+		}
+		c, tc, err := g.glueExpr(is.Cond, map[string]string{})
+		if err != nil || tc != "bool" {
+			return g.errf(is.Cond, "binaryOp: result type condition")
+		}
+		e, te, err := g.glueExpr(as.Rhs[0], map[string]string{})
+		if err != nil || te != "kind" {
+			return g.errf(as, "binaryOp: typ = …")
+		}
+		arms = append(arms, "if "+c+" then "+e+" else")
+		switch el := is.Else.(type) {
+		case nil:
+			is = nil
+		case *ast.IfStmt:
+			is = el
+		default:
+			return g.errf(is, "binaryOp: result type chain ends with else")
+		}
+	}
+	fmt.Fprintf(w, "/-- … and the kind of the type of the result (%s) -/\n", g.fset.Position(chain.Pos()))
+	fmt.Fprintf(w, "def foldResultKind (isBoolOp isShift untyped1 : Bool) (k1 k2 : Nat) : Nat :=\n  %s %s\n", strings.Join(arms, " "), res)
+	return nil
+}
+
 func genConstInt(repo string) (string, error) {
 	g := &ciGen{fset: token.NewFileSet(), consts: map[string]ast.Expr{}, vars: map[string]ast.Expr{}}
-	for _, name := range []string{"constant.go", "checker_util.go", "checker_scopes.go"} {
+	for _, name := range []string{"constant.go", "checker_util.go", "checker_scopes.go", "checker_expressions.go"} {
 		f, err := parser.ParseFile(g.fset, filepath.Join(repo, "internal", "compiler", name), nil, 0)
 		if err != nil {
 			return "", err
@@ -1477,7 +1694,7 @@ func genConstInt(repo string) (string, error) {
 	fmt.Fprintf(w, "/-- implementation types of a numeric constant: int64Const, intConst, float64Const, floatConst (512-bit big.Float), ratConst -/\ninductive Impl where\n  | small | big | f64 | bigf | rat\n  deriving DecidableEq, Repr\n\n")
 	fmt.Fprintf(w, "/-- primitive conversion steps between implementations; `i64ToF64` and `ratToBigFloat` can round -/\ninductive Step where\n  | i64ToBig | i64ToF64 | i64ToBigFloat | i64ToRat | bigToBigFloat | bigToRat | f64ToBigFloat | f64ToRat | ratToBigFloat\n  deriving DecidableEq, Repr\n\n")
 	fmt.Fprintf(w, "structure BigOp where\n  method : BigMethod\n  checksOverflow : Bool\n  refusesZeroDivisor : Bool\n  deriving DecidableEq, Repr\n")
-	for _, step := range []func() error{g.genIsSigned, g.genTables, g.genFastBinary, g.genFastUnary, g.genRepFast, g.genBig, g.genShiftGuard, g.genPromote} {
+	for _, step := range []func() error{g.genIsSigned, g.genTables, g.genFastBinary, g.genFastUnary, g.genRepFast, g.genBig, g.genShiftGuard, g.genPromote, g.genFoldGlue} {
 		if err := step(); err != nil {
 			return "", err
 		}
